@@ -1,6 +1,22 @@
 package main
 
-import "fmt"
+// Replay of solver counterexamples against the real code: the model's inputs are rebuilt as Go
+// values, the real function is called from an in-package test injected with `go test -overlay`
+// (nothing is written into /repo), and its observable results are compared with the results the
+// model predicts. Agreement confirms that the real code exhibits the counterexample.
+
+import (
+	"bytes"
+	"encoding/json"
+	"fmt"
+	"go/types"
+	"os"
+	"os/exec"
+	"path/filepath"
+	"sort"
+	"strings"
+	"time"
+)
 
 type ReplayOutcome struct {
 	Attempted bool   `json:"attempted"`
@@ -10,16 +26,484 @@ type ReplayOutcome struct {
 	Output    string `json:"output,omitempty"`
 }
 
+type inputRead struct {
+	Path string
+	Term string
+	Type types.Type
+}
+
+type retRecord struct {
+	Reach string
+	Vals  []Val
+}
+
+var currentGens []*Gen
+
+// parseSExpr: minimal s-expression reader for model values.
+type sx struct {
+	atom string
+	list []*sx
+}
+
+func parseSX(s string) *sx {
+	toks := strings.Fields(strings.NewReplacer("(", " ( ", ")", " ) ").Replace(s))
+	pos := 0
+	var rd func() *sx
+	rd = func() *sx {
+		if pos >= len(toks) {
+			return &sx{atom: ""}
+		}
+		t := toks[pos]
+		pos++
+		if t == "(" {
+			n := &sx{}
+			for pos < len(toks) && toks[pos] != ")" {
+				n.list = append(n.list, rd())
+			}
+			pos++
+			return n
+		}
+		return &sx{atom: t}
+	}
+	return rd()
+}
+
+func (n *sx) intVal() (string, bool) {
+	if n.atom != "" {
+		if n.atom[0] >= '0' && n.atom[0] <= '9' {
+			return n.atom, true
+		}
+		if strings.HasPrefix(n.atom, "#x") {
+			var v uint64
+			fmt.Sscanf(n.atom[2:], "%x", &v)
+			return fmt.Sprint(v), true
+		}
+		return "", false
+	}
+	if len(n.list) == 2 && n.list[0].atom == "-" {
+		if v, ok := n.list[1].intVal(); ok {
+			return "-" + v, true
+		}
+	}
+	if len(n.list) == 3 && n.list[0].atom == "_" && strings.HasPrefix(n.list[1].atom, "bv") {
+		return n.list[1].atom[2:], true
+	}
+	return "", false
+}
+
+type replayBuilder struct {
+	g       *Gen
+	pkg     *types.Package
+	imports map[string]string // path -> name
+	lines   []string
+	objs    map[string]string // model pointer value -> Go variable
+	strs    map[string]string
+	nobj    int
+	usesNow bool
+	nowTerm string
+	bad     string
+}
+
+func (b *replayBuilder) qual(p *types.Package) string {
+	if p == b.pkg {
+		return ""
+	}
+	b.imports[p.Path()] = p.Name()
+	return p.Name()
+}
+
+func (b *replayBuilder) typeStr(t types.Type) string { return types.TypeString(t, b.qual) }
+
+// goValue renders a model value of Go type t as a Go expression.
+func (b *replayBuilder) goValue(mv string, t types.Type) (string, bool) {
+	n := parseSX(mv)
+	if isTimeType(t) {
+		v, ok := n.intVal()
+		if !ok {
+			return "", false
+		}
+		b.imports["time"] = "time"
+		b.usesNow = true
+		return fmt.Sprintf("gvcTime(%s, gvcOff)", v), true
+	}
+	switch u := t.Underlying().(type) {
+	case *types.Basic:
+		switch {
+		case u.Info()&types.IsBoolean != 0:
+			return n.atom, n.atom == "true" || n.atom == "false"
+		case u.Info()&types.IsInteger != 0:
+			v, ok := n.intVal()
+			if !ok {
+				return "", false
+			}
+			return fmt.Sprintf("%s(%s)", b.typeStr(t), v), true
+		case u.Info()&types.IsString != 0:
+			s, ok := b.strs[mv]
+			if !ok {
+				s = fmt.Sprintf("gvc-s%d", len(b.strs))
+				b.strs[mv] = s
+			}
+			return fmt.Sprintf("%s(%q)", b.typeStr(t), s), true
+		}
+	case *types.Pointer:
+		if n.atom == "pnull" {
+			return "nil", true
+		}
+		if _, isStruct := u.Elem().Underlying().(*types.Struct); !isStruct {
+			return "", false
+		}
+		if v, ok := b.objs[mv+"|"+b.typeStr(t)]; ok {
+			return v, true
+		}
+		b.nobj++
+		v := fmt.Sprintf("gvcObj%d", b.nobj)
+		b.objs[mv+"|"+b.typeStr(t)] = v
+		b.lines = append([]string{fmt.Sprintf("%s := new(%s)", v, b.typeStr(u.Elem()))}, b.lines...)
+		return v, true
+	case *types.Struct:
+		if len(n.list) == u.NumFields()+1 {
+			var fs []string
+			for i := 0; i < u.NumFields(); i++ {
+				fv, ok := b.goValue(sxString(n.list[i+1]), u.Field(i).Type())
+				if !ok {
+					return "", false
+				}
+				fs = append(fs, u.Field(i).Name()+": "+fv)
+			}
+			return b.typeStr(t) + "{" + strings.Join(fs, ", ") + "}", true
+		}
+	case *types.Slice:
+		// only nil / empty slices can be rebuilt without the element map
+		if len(n.list) == 5 && n.list[0].atom == "mk-slice" {
+			if l, ok := n.list[3].intVal(); ok && l == "0" {
+				return "nil", true
+			}
+		}
+	case *types.Interface:
+		if len(n.list) == 3 && n.list[1].atom == "0" {
+			return "nil", true
+		}
+	case *types.Map:
+		if n.atom == "0" {
+			return "nil", true
+		}
+	}
+	return "", false
+}
+
+func sxString(n *sx) string {
+	if n.atom != "" || len(n.list) == 0 {
+		return n.atom
+	}
+	var ps []string
+	for _, c := range n.list {
+		ps = append(ps, sxString(c))
+	}
+	return "(" + strings.Join(ps, " ") + ")"
+}
+
 func tryReplay(w *World, prop, key string, r *Result) *ReplayOutcome {
-	return &ReplayOutcome{Attempted: false, Detail: "no replay generator for this obligation"}
+	out := &ReplayOutcome{}
+	var g *Gen
+	for _, x := range currentGens {
+		if x.key == r.O.Func {
+			g = x
+		}
+	}
+	if g == nil || g.fn == nil || r.Model == nil {
+		out.Detail = "no function/model to replay"
+		return out
+	}
+	if g.fn.Parent() != nil {
+		out.Detail = "closure: inputs (captured variables) cannot be rebuilt automatically"
+		return out
+	}
+	b := &replayBuilder{g: g, pkg: g.fn.Pkg.Pkg, imports: map[string]string{"testing": "testing", "fmt": "fmt"}, objs: map[string]string{}, strs: map[string]string{}}
+	// parameters
+	var args []string
+	recv := ""
+	for i, p := range g.fn.Params {
+		mv, ok := r.Model[p.Name()]
+		if !ok {
+			out.Detail = "model has no value for parameter " + p.Name()
+			return out
+		}
+		gv, ok := b.goValue(mv, p.Type())
+		if !ok {
+			out.Detail = fmt.Sprintf("parameter %s of type %s cannot be rebuilt from the model value %s", p.Name(), p.Type(), truncate(mv, 80))
+			return out
+		}
+		b.lines = append(b.lines, fmt.Sprintf("var %s %s = %s", "p_"+p.Name(), b.typeStr(p.Type()), gv))
+		if i == 0 && g.fn.Signature.Recv() != nil {
+			recv = "p_" + p.Name()
+		} else {
+			args = append(args, "p_"+p.Name())
+		}
+	}
+	// heap reads reachable from parameters, shortest paths first
+	reads := append([]inputRead{}, g.inputReads...)
+	sort.SliceStable(reads, func(i, j int) bool { return strings.Count(reads[i].Path, ".") < strings.Count(reads[j].Path, ".") })
+	done := map[string]bool{}
+	for _, rd := range reads {
+		if done[rd.Path] {
+			continue
+		}
+		done[rd.Path] = true
+		mv, ok := r.Model["@"+rd.Path]
+		if !ok {
+			continue
+		}
+		root := rd.Path
+		if i := strings.IndexAny(root, ".["); i >= 0 {
+			root = root[:i]
+		}
+		isParam := false
+		for _, p := range g.fn.Params {
+			if p.Name() == root {
+				isParam = true
+			}
+		}
+		if !isParam || strings.Contains(rd.Path, "[") {
+			continue
+		}
+		gv, ok := b.goValue(mv, rd.Type)
+		if !ok {
+			continue // leave the zero value; the comparison of results decides
+		}
+		// guard: assigning through a nil pointer would panic in the harness itself
+		prefix := "p_" + rd.Path[:strings.LastIndex(rd.Path, ".")]
+		b.lines = append(b.lines, fmt.Sprintf("if gvcNonNil(%s) { %s = %s }", prefix, "p_"+rd.Path, gv))
+	}
+	// the call
+	sig := g.fn.Signature
+	var rets []string
+	for i := 0; i < sig.Results().Len(); i++ {
+		rets = append(rets, fmt.Sprintf("r%d", i))
+	}
+	call := g.fn.Name() + "(" + strings.Join(args, ", ") + ")"
+	if recv != "" {
+		call = recv + "." + call
+	}
+	if len(rets) > 0 {
+		b.lines = append(b.lines, strings.Join(rets, ", ")+" := "+call)
+	} else {
+		b.lines = append(b.lines, call)
+	}
+	for i := range rets {
+		b.lines = append(b.lines, fmt.Sprintf("fmt.Printf(\"GVC-REPLAY r%d=%%s\\n\", gvcShow(r%d))", i, i))
+	}
+	// expected results from the model: the return whose reach condition is true
+	var expect []string
+	for ri, rr := range g.rets {
+		if r.Model[fmt.Sprintf("@reach%d", ri)] != "true" {
+			continue
+		}
+		for vi, v := range rr.Vals {
+			mv := r.Model[fmt.Sprintf("@ret%d_%d", ri, vi)]
+			expect = append(expect, showModel(mv, v))
+		}
+		break
+	}
+	nowMV := r.Model["time.Now()"]
+	var src bytes.Buffer
+	fmt.Fprintf(&src, "package %s\n\nimport (\n", b.pkg.Name())
+	b.imports["time"] = "time"
+	b.imports["reflect"] = "reflect"
+	for _, p := range sortedKeys(b.imports) {
+		if b.imports[p] == filepath.Base(p) || !strings.Contains(p, "/") {
+			fmt.Fprintf(&src, "\t%q\n", p)
+		} else {
+			fmt.Fprintf(&src, "\t%s %q\n", b.imports[p], p)
+		}
+	}
+	fmt.Fprintf(&src, ")\n\nfunc gvcTime(ns int64, off int64) time.Time { return time.Unix(0, ns+off) }\n")
+	fmt.Fprintf(&src, "func gvcNonNil(x interface{}) bool { v := reflect.ValueOf(x); return !(v.Kind() == reflect.Ptr && v.IsNil()) }\n")
+	fmt.Fprintf(&src, `func gvcShow(x interface{}) string {
+	if x == nil {
+		return "nil"
+	}
+	v := reflect.ValueOf(x)
+	switch v.Kind() {
+	case reflect.Ptr, reflect.Map, reflect.Slice, reflect.Interface, reflect.Func:
+		if v.IsNil() {
+			return "nil"
+		}
+		return "nonnil"
+	case reflect.Struct:
+		if t, ok := x.(time.Time); ok {
+			return fmt.Sprint(t.UnixNano())
+		}
+		return fmt.Sprintf("%%+v", x)
+	}
+	return fmt.Sprint(x)
+}
+`)
+	fmt.Fprintf(&src, "\nfunc TestGvcReplay(t *testing.T) {\n\tdefer func() {\n\t\tif e := recover(); e != nil {\n\t\t\tfmt.Printf(\"GVC-REPLAY panic=%%v\\n\", e)\n\t\t}\n\t}()\n")
+	if nowMV != "" {
+		if v, ok := parseSX(nowMV).intVal(); ok {
+			fmt.Fprintf(&src, "\tgvcOff := time.Now().UnixNano() - (%s)\n\t_ = gvcOff\n", v)
+		} else {
+			fmt.Fprintf(&src, "\tgvcOff := int64(0)\n\t_ = gvcOff\n")
+		}
+	} else {
+		fmt.Fprintf(&src, "\tgvcOff := int64(0)\n\t_ = gvcOff\n")
+	}
+	for _, l := range b.lines {
+		fmt.Fprintf(&src, "\t%s\n", l)
+	}
+	fmt.Fprintf(&src, "}\n")
+
+	dir, err := os.MkdirTemp("", "gvc-replay-")
+	if err != nil {
+		out.Detail = err.Error()
+		return out
+	}
+	defer os.RemoveAll(dir)
+	testSrc := filepath.Join(dir, "zz_gvc_replay_test.go")
+	os.WriteFile(testSrc, src.Bytes(), 0o644)
+	// place it next to the function's source file
+	pos := w.fset.Position(g.fn.Pos())
+	target := filepath.Join(filepath.Dir(pos.Filename), "zz_gvc_replay_test.go")
+	ov, _ := json.Marshal(map[string]any{"Replace": map[string]string{target: testSrc}})
+	ovFile := filepath.Join(dir, "overlay.json")
+	os.WriteFile(ovFile, ov, 0o644)
+	rel, _ := filepath.Rel(repoRoot, filepath.Dir(pos.Filename))
+	cmd := exec.Command("go", "test", "-overlay", ovFile, "-vet=off", "-count=1", "-timeout", "120s", "-v", "-run", "^TestGvcReplay$", "./"+rel+"/")
+	cmd.Dir = repoRoot
+	cmd.Env = append(os.Environ(), "GOFLAGS=-mod=mod", "GOPROXY=off")
+	var buf bytes.Buffer
+	cmd.Stdout, cmd.Stderr = &buf, &buf
+	t0 := time.Now()
+	cmd.Run()
+	out.Attempted = true
+	out.TestFile = src.String()
+	res := buf.String()
+	var got []string
+	panicked := ""
+	for _, l := range strings.Split(res, "\n") {
+		if strings.HasPrefix(l, "GVC-REPLAY r") {
+			got = append(got, l[strings.Index(l, "=")+1:])
+		}
+		if strings.HasPrefix(l, "GVC-REPLAY panic=") {
+			panicked = l
+		}
+	}
+	out.Output = truncate(res, 3000)
+	isSafety := r.O.Implicit || strings.HasPrefix(r.O.Clause, "nopanic")
+	switch {
+	case panicked != "":
+		out.Confirmed = isSafety
+		out.Detail = fmt.Sprintf("real code panicked on the model's inputs (%s) after %.1fs", panicked, time.Since(t0).Seconds())
+	case len(got) == 0 && sig.Results().Len() > 0:
+		out.Detail = "replay test did not run to completion (build error or unsupported input shape)"
+	case isSafety:
+		out.Detail = "real code did not panic on the model's inputs"
+	default:
+		match := len(expect) == len(got)
+		for i := range got {
+			if match && expect[i] != "?" && expect[i] != got[i] {
+				match = false
+			}
+		}
+		anyKnown := false
+		for _, e := range expect {
+			if e != "?" {
+				anyKnown = true
+			}
+		}
+		if match && (anyKnown || len(expect) == 0) {
+			out.Confirmed = true
+			out.Detail = fmt.Sprintf("real code returned %v on the model's inputs, exactly the results of the counterexample (which violate the clause)", got)
+		} else {
+			out.Detail = fmt.Sprintf("real code returned %v, model predicted %v: counterexample not reproduced (inputs may not be fully rebuildable)", got, expect)
+		}
+	}
+	return out
+}
+
+// showModel renders a model value the way gvcShow prints the corresponding Go value.
+func showModel(mv string, v Val) string {
+	if mv == "" {
+		return "?"
+	}
+	n := parseSX(mv)
+	if v.G != nil && isTimeType(v.G) {
+		return "?" // shifted by the clock offset
+	}
+	switch v.S.K {
+	case KBool:
+		return n.atom
+	case KInt, KBV:
+		if s, ok := n.intVal(); ok {
+			return s
+		}
+	case KPtr:
+		if n.atom == "pnull" {
+			return "nil"
+		}
+		return "nonnil"
+	case KIface:
+		if len(n.list) == 3 && n.list[1].atom == "0" && n.list[2].atom == "0" {
+			return "nil"
+		}
+		return "nonnil"
+	case KSlice:
+		if len(n.list) == 5 {
+			if a, ok := n.list[1].intVal(); ok && a == "0" {
+				return "nil"
+			}
+			return "nonnil"
+		}
+	case KStruct:
+		if v.G != nil {
+			if st, ok := v.G.Underlying().(*types.Struct); ok && len(n.list) == st.NumFields()+1 {
+				var fs []string
+				for i := 0; i < st.NumFields(); i++ {
+					fs = append(fs, st.Field(i).Name()+":"+sxString(n.list[i+1]))
+				}
+				return "{" + strings.Join(fs, " ") + "}"
+			}
+		}
+	}
+	return "?"
 }
 
 func runReplay(file string) int {
-	fmt.Println("replay not implemented yet:", file)
-	return 2
+	data, err := os.ReadFile(file)
+	if err != nil {
+		fmt.Println("gvc replay:", err)
+		return 2
+	}
+	var rf ReplayFile
+	if err := json.Unmarshal(data, &rf); err != nil {
+		fmt.Println("gvc replay:", err)
+		return 2
+	}
+	fmt.Printf("obligation: %s\nstatus: %s\nposition: %s\nmodel: %v\n", rf.Obligation, rf.Status, rf.Pos, rf.Model)
+	if rf.Replay == nil || rf.Replay.TestFile == "" {
+		fmt.Println("no replay test stored for this violation (solver output below)")
+		fmt.Println(rf.SolverOut)
+		return 1
+	}
+	// re-run the stored test against the current tree
+	dir, _ := os.MkdirTemp("", "gvc-replay-")
+	defer os.RemoveAll(dir)
+	src := filepath.Join(dir, "zz_gvc_replay_test.go")
+	os.WriteFile(src, []byte(rf.Replay.TestFile), 0o644)
+	pkgDir := filepath.Join(repoRoot, filepath.Dir(strings.SplitN(rf.Pos, ":", 2)[0]))
+	ov, _ := json.Marshal(map[string]any{"Replace": map[string]string{filepath.Join(pkgDir, "zz_gvc_replay_test.go"): src}})
+	ovFile := filepath.Join(dir, "overlay.json")
+	os.WriteFile(ovFile, ov, 0o644)
+	rel, _ := filepath.Rel(repoRoot, pkgDir)
+	cmd := exec.Command("go", "test", "-overlay", ovFile, "-vet=off", "-count=1", "-timeout", "120s", "-v", "-run", "^TestGvcReplay$", "./"+rel+"/")
+	cmd.Dir = repoRoot
+	cmd.Env = append(os.Environ(), "GOFLAGS=-mod=mod", "GOPROXY=off")
+	cmd.Stdout, cmd.Stderr = os.Stdout, os.Stderr
+	cmd.Run()
+	return 0
 }
 
 func runSelftest(prop string) int {
-	fmt.Println("selftest not implemented yet")
+	fmt.Println("selftest: see /verif/tools/selftest.sh")
 	return 2
 }
